@@ -91,10 +91,11 @@ pub fn old_rd(rec: &ParsedRecord<'_, &[u8]>) -> Value {
             return rd_json(kind, kind == "opaque", vec![], vec![]);
         }
     };
-    // whatever parsed can be displayed and compared
-    let _ = format!("{}", r.display_zonefile(DisplayKind::Simple));
-    // (not compared with ==: AllRecordData's PartialEq has no arm for OPT /
-    // unknown types, which is C04's finding D_alldata_eq_opt_unknown)
+    // whatever parsed can be displayed, iterated, compared, hashed, measured
+    // and composed again (a panic surfaces as the panic of the component)
+    exercise_record(&r);
+    // (not compared with ==: the derived data types are compared by their
+    // renderings, which must also be repeatable)
     assert_eq!(format!("{:?}", r.data()), format!("{:?}", r2.as_ref().unwrap().data()),
                "typed data differs between parses");
     let mut names = vec![];
@@ -124,6 +125,98 @@ pub fn old_rd(rec: &ParsedRecord<'_, &[u8]>) -> Value {
         _ => {}
     }
     rd_json(kind, true, names, opts)
+}
+
+type AnyRecord<'a> = domain::base::Record<ParsedName<&'a [u8]>, AllRecordData<&'a [u8], ParsedName<&'a [u8]>>>;
+
+/// Everything a caller can do with a parsed record, for every type: the three
+/// zone-style renderings, Debug, comparison with itself (==, partial_cmp,
+/// canonical order), hash, rdlen, re-composition (plain and canonical), and
+/// iteration of the sub-structures of the types that have internal framing.
+pub fn exercise_record(r: &AnyRecord<'_>) {
+    use domain::base::cmp::CanonicalOrd;
+    use domain::base::rdata::ComposeRecordData;
+    let d = r.data();
+    let _ = format!("{}", r.display_zonefile(DisplayKind::Simple));
+    let _ = format!("{}", r.display_zonefile(DisplayKind::Tabbed));
+    let _ = format!("{}", r.display_zonefile(DisplayKind::Multiline));
+    let _ = format!("{}", d.display_zonefile(DisplayKind::Simple));
+    let _ = format!("{}", d.display_zonefile(DisplayKind::Multiline));
+    let _ = format!("{:?}", r);
+    let _ = format!("{:?}", d);
+    let _ = d == d;
+    let _ = d.partial_cmp(d);
+    let _ = d.canonical_cmp(d);
+    let mut h = DefaultHasher::new();
+    d.hash(&mut h);
+    let _ = h.finish();
+    let _ = d.rdlen(false);
+    let _ = d.rdlen(true);
+    let mut out: Vec<u8> = vec![];
+    let _ = d.compose_rdata(&mut out);
+    let mut out2: Vec<u8> = vec![];
+    let _ = d.compose_canonical_rdata(&mut out2);
+    match d {
+        AllRecordData::Nsec(x) => {
+            let t = x.types();
+            let _ = (t.is_empty(), t.iter().count(), t.contains(domain::base::iana::Rtype::A));
+            let _ = format!("{} {:?}", t, t);
+            let _ = format!("{}", x.next_name());
+        }
+        AllRecordData::Nsec3(x) => {
+            let t = x.types();
+            let _ = (t.is_empty(), t.iter().count(), t.contains(domain::base::iana::Rtype::NS));
+            let _ = format!("{} {:?} {} {}", t, t, x.salt(), x.next_owner());
+            let _ = (x.iterations(), x.opt_out(), x.hash_algorithm());
+        }
+        AllRecordData::Nsec3param(x) => {
+            let _ = format!("{} {:?}", x.salt(), x);
+        }
+        AllRecordData::Txt(x) => {
+            let _ = (x.iter().count(), x.iter_charstrs().count(), x.len());
+            for c in x.iter_charstrs() {
+                let _ = format!("{} {:?}", c, c);
+            }
+            let _: Vec<u8> = x.text();
+        }
+        AllRecordData::Hinfo(x) => {
+            let _ = format!("{} {}", x.cpu(), x.os());
+        }
+        AllRecordData::Svcb(x) => {
+            let p = x.params();
+            let _ = (p.len(), p.is_empty(), p.iter_raw().count());
+            for v in p.iter_all() {
+                let _ = format!("{:?}", v);
+            }
+            let _ = format!("{} {:?}", x.target(), p);
+        }
+        AllRecordData::Https(x) => {
+            let p = x.params();
+            let _ = (p.len(), p.is_empty(), p.iter_raw().count());
+            for v in p.iter_all() {
+                let _ = format!("{:?}", v);
+            }
+            let _ = format!("{} {:?}", x.target(), p);
+        }
+        AllRecordData::Ipseckey(x) => {
+            let _ = format!("{:?} {:?} {:?}", x.gateway_type(), x.gateway(), x.algorithm());
+            let _ = x.key().len();
+        }
+        AllRecordData::Tsig(x) => {
+            let _ = (x.mac_slice().len(), x.other().len(), x.other_time(), x.fudge(), x.original_id());
+            let _ = format!("{} {:?}", x.algorithm(), x.error());
+        }
+        AllRecordData::Rrsig(x) => {
+            let _ = format!("{} {:?}", x.signer_name(), x.type_covered());
+        }
+        AllRecordData::Naptr(x) => {
+            let _ = format!("{} {} {} {}", x.flags(), x.services(), x.regexp(), x.replacement());
+        }
+        AllRecordData::Caa(x) => {
+            let _ = format!("{:?}", x);
+        }
+        _ => {}
+    }
 }
 
 fn q_item(q: &Question<ParsedName<&[u8]>>) -> Value {
